@@ -57,3 +57,41 @@ class Forward:
         if name in ov:
             return ov[name]
         return getattr(self.__dict__["_real"], name)
+
+
+_MEMO = {}
+
+
+def install_compile_memo(sm, clock):
+    """Harness-side speed-up for history explorers that rebuild their world by replay: identical
+    (text, uri, filename, simulated clock) compile to identical module source, so lexing / code generation /
+    compile() results are memoised per worker process.  Only for checks whose subject is not the compiler."""
+    import os
+
+    from mako import template as mtemplate
+
+    if _MEMO.get("pid") != os.getpid():
+        _MEMO.clear()
+        _MEMO["pid"] = os.getpid()
+    memo = _MEMO.setdefault("src", {})
+    cmemo = _MEMO.setdefault("code", {})
+    real_compile = mtemplate._compile
+
+    def _compile(template, text, filename, generate_magic_comment):
+        k = (text, filename, template.uri, template.module_id, generate_magic_comment, clock.now)
+        r = memo.get(k)
+        if r is None:
+            r = memo[k] = real_compile(template, text, filename, generate_magic_comment)
+        return r
+
+    def compile_(source, name, mode, *a, **kw):
+        k = (source, name, mode)
+        r = cmemo.get(k)
+        if r is None:
+            r = cmemo[k] = compile(source, name, mode, *a, **kw)
+        return r
+
+    if "compile" not in mtemplate.__dict__:
+        mtemplate.compile = compile  # so that the module global can be rebound and restored
+    sm.set(mtemplate, "_compile", _compile)
+    sm.set(mtemplate, "compile", compile_)
